@@ -23,6 +23,8 @@ def run(ctx: Ctx, chk) -> None:
     chk.run_rule(conn_guard, ctx)
     chk.run_rule(frame1, ctx)
     chk.run_rule(factory1, ctx)
+    chk.run_rule(absorb1, ctx)
+    chk.run_rule(override1, ctx)
 
 
 def eea_stream(ctx: Ctx, chk) -> None:
@@ -64,8 +66,19 @@ def conn_guard(ctx: Ctx, chk) -> None:
         f = st.find_method(name)
         g = CFG(f.node)
         for attr in ("reader", "writer"):
-            uses = g.nodes_where(lambda n, a=attr: n.kind != "test" and any(isinstance(x, ast.Attribute) and isinstance(x.value, ast.Attribute) and norm(x.value) == f"self.{a}" for p_ in n.parts() for x in ast.walk(p_)))
-            guards = g.nodes_where(lambda n, a=attr: n.kind == "test" and norm(n.ast) in (f"self.{a} is None", f"not self.{a}", f"self.{a} is not None", f"self.{a}"))
+            # the attribute itself or a local bound to it (`writer = self.writer` / tuple assignment)
+            names = {f"self.{attr}"}
+            for a_ in ctx.own_nodes(f):
+                if isinstance(a_, ast.Assign) and len(a_.targets) == 1:
+                    tg, vl = a_.targets[0], a_.value
+                    pairs = list(zip(tg.elts, vl.elts)) if isinstance(tg, ast.Tuple) and isinstance(vl, ast.Tuple) and len(tg.elts) == len(vl.elts) else [(tg, vl)]
+                    for x_, y_ in pairs:
+                        if isinstance(x_, ast.Name) and norm(y_) == f"self.{attr}":
+                            names.add(x_.id)
+            uses = g.nodes_where(lambda n, names=names: n.kind != "test" and any(isinstance(x, ast.Attribute) and isinstance(x.ctx, ast.Load) and norm(x.value) in names and not (isinstance(x.value, ast.Name) and x.value.id == "self") for p_ in n.parts() for x in ast.walk(p_)))
+            gtexts = {t_ for nm in names for t_ in (f"{nm} is None", f"not {nm}", f"{nm} is not None", nm)}
+            postexts = {t_ for nm in names for t_ in (f"{nm} is not None", nm)}
+            guards = g.nodes_where(lambda n, gtexts=gtexts: n.kind == "test" and norm(n.ast) in gtexts)
             for u in uses:
                 n_uses += 1
                 chk.instance(rule)
@@ -74,7 +87,7 @@ def conn_guard(ctx: Ctx, chk) -> None:
                 for gd in guards:
                     if not g.dominates(gd, u):
                         continue
-                    positive = norm(gd.ast) in (f"self.{attr} is not None", f"self.{attr}")
+                    positive = norm(gd.ast) in postexts
                     # the None branch must not reach the use
                     none_label = "f" if positive else "t"
                     starts = [s for s, lab in gd.succ if lab == none_label]
@@ -317,3 +330,90 @@ def thorough(ctx: Ctx, chk) -> None:
 
     entries = [(ctx.cls(ST).find_method(n), None) for n in ("connect", "read", "write", "disconnect")]
     prune_diff(ctx, chk, entries)
+
+
+def absorb1(ctx: Ctx, chk) -> None:
+    rule = "ABSORB-1"
+    chk.rule(rule, "disconnecting absorbs OS-level errors: every operation disconnect() performs on the stream writer (close, wait_closed, ...) is enclosed by a handler that catches OSError")
+    st = ctx.cls(ST)
+    f = st.find_method("disconnect")
+    if f is None:
+        raise AnalysisError("anchor vanished: StreamTransport.disconnect")
+    names = {"self.writer", "self.reader"}
+    for a_ in ctx.own_nodes(f):
+        if isinstance(a_, ast.Assign) and len(a_.targets) == 1:
+            tg, vl = a_.targets[0], a_.value
+            pairs = list(zip(tg.elts, vl.elts)) if isinstance(tg, ast.Tuple) and isinstance(vl, ast.Tuple) and len(tg.elts) == len(vl.elts) else [(tg, vl)]
+            for x_, y_ in pairs:
+                if isinstance(x_, ast.Name) and norm(y_) in ("self.writer", "self.reader"):
+                    names.add(x_.id)
+    n = 0
+    for c in ctx.own_nodes(f):
+        if isinstance(c, ast.Call) and isinstance(c.func, ast.Attribute) and norm(c.func.value) in names:
+            n += 1
+            chk.instance(rule)
+            k = fkey(f, c) + "::absorbed"
+            if _enclosing_try_catching(ctx, f, c, OSERR):
+                chk.ok(rule, k, "inside try/except OSError", ctx.loc(f, c))
+            else:
+                chk.refute(rule, k, f"`{norm(c)}` in disconnect() is outside the OSError handler: an OS-level error while closing (a dead socket, an unplugged serial adapter) escapes from disconnect instead of being absorbed", ctx.loc(f, c))
+    chk.floor(rule, "stream operations in disconnect", n, 1)
+
+
+def override1(ctx: Ctx, chk) -> None:
+    rule = "OVERRIDE-1"
+    chk.rule(rule, "the concrete stream transports (TCP, serial) provide only the connection factory: read / write / connect / disconnect are those of StreamTransport (FRAME-1, CONN-GUARD, EEA-STREAM are decided on them); an override must not re-frame the byte stream")
+    st = ctx.cls(ST)
+    n = 0
+    for c in ctx.prog.subclasses(st):
+        for name in ("read", "write", "connect", "disconnect"):
+            n += 1
+            chk.instance(rule)
+            k = f"{c.fq}.{name}::inherited"
+            if name in c.methods and _thin_override(ctx, c.methods[name][-1], name):
+                chk.ok(rule, k, f"overrides {name}() only to delegate once to StreamTransport.{name} with the same arguments", c.methods[name][-1].where)
+            elif name in c.methods:
+                f = c.methods[name][-1]
+                chk.refute(rule, k, f"{c.name} overrides {name}(): the bytes on the stream are no longer decided by StreamTransport.{name} (one writer.write of the whole encoded line / one readuntil per read) - e.g. a line written in pieces with suspension points in between interleaves with other writers and a failure leaves a partial line on the wire", f.where)
+            else:
+                chk.ok(rule, k, f"inherits StreamTransport.{name}", f"{c.module.relpath}:{c.node.lineno}", sample=n <= 2)
+    chk.floor(rule, "concrete stream transports x operations", n, 8)
+
+
+def _thin_override(ctx: Ctx, f, name: str) -> bool:
+    """The override awaits super().<name>(<its own parameters>) exactly once on every normal path, outside any loop,
+    and (for read) returns exactly that result."""
+    from ..cfg import CFG
+
+    sup = [c for c in ctx.own_nodes(f) if isinstance(c, ast.Call) and isinstance(c.func, ast.Attribute) and c.func.attr == name and isinstance(c.func.value, ast.Call) and norm(c.func.value.func) == "super"]
+    if len(sup) != 1:
+        return False
+    c = sup[0]
+    params = f.positional_params[1:]
+    if [norm(a) for a in c.args] != params or c.keywords or not isinstance(ctx.prog.parents.get(c), ast.Await):
+        return False
+    cur = c
+    while cur in ctx.prog.parents and cur is not f.node:
+        cur = ctx.prog.parents[cur]
+        if isinstance(cur, (ast.For, ast.AsyncFor, ast.While)):
+            return False
+    # the parameters are not rebound before the call
+    for n in ctx.own_nodes(f):
+        if isinstance(n, ast.Name) and isinstance(n.ctx, ast.Store) and n.id in params:
+            return False
+    g = CFG(f.node)
+    cn = g.nodes_where(lambda x: x.contains(c))
+    if g.reach_avoiding([g.entry], lambda x: x is g.exit, lambda x: x in cn, labels_skip=("exc",), from_succ=False) is not None:
+        return False
+    if name == "read":
+        rets = [r for r in ctx.own_nodes(f) if isinstance(r, ast.Return)]
+        aw = ctx.prog.parents.get(c)
+        for r in rets:
+            if r.value is aw:
+                continue
+            if isinstance(r.value, ast.Name):
+                la = ctx.I.local_assigns(f).get(r.value.id) or []
+                if len(la) == 1 and la[0] is aw:
+                    continue
+            return False
+    return True
